@@ -1,4 +1,5 @@
 import LexgenModel.Proofs.NextLocations
+import LexgenModel.Proofs.RefRefine
 /-!
 # C10 — Semantic-action protocol
 -/
@@ -51,5 +52,16 @@ theorem C10_views (cfg cfg' : Config σ τ ε) (hm : MachineOK cfg) (input : Lis
     (hact : ∀ a v, ViewOK cfg input v → (cfg.actions a).run v = (cfg'.actions a).run v) :
     next cfg st = next cfg' st :=
   next_views cfg cfg' hm input st hb hsame hact
+
+/-- The semantic-action protocol at the language level: exactly one action runs per selected match (`RefNext.ret`/`cont` call
+`callAction` on the state advanced by exactly the lexeme), in input order, none for abandoned candidates; `cont` re-selects from
+the state the action left. -/
+theorem C10_refines_reference (items : LexerDef) (c : Compiled) (h : compileLexer items = .ok c) (hok : DefOK items)
+    (ctxAt : Nat → Regex) (hnum : CtxNumbering items ctxAt)
+    (actions : Nat → Action σ τ ε) (width : Nat → Nat) (input : Option (List Nat))
+    (st : LState σ) (hr : Ready (c.config actions width input) st)
+    (r : Option (Item τ ε) × LState σ) (hn : next (c.config actions width input) st = some r) :
+    RefNext items c ctxAt (c.config actions width input) st r :=
+  next_refines_ref items c h hok ctxAt hnum actions width input st hr r hn
 
 end Lexgen
